@@ -929,6 +929,18 @@ impl<'a> Exec<'a> {
             }
         }
 
+        // what a host does with every message and number: full conversion table, factory rebuild,
+        // every accessor on both crate representations (C18 surface only; nothing judged)
+        if apimon::full_surface() {
+            let wide = ((b[0] as u32) << 14) | ((b[2] as u32) << 7) | b[1] as u32;
+            let acc = api(L::newtype_conversions, || crate::surface::conversions(b, wide))?;
+            std::hint::black_box(acc);
+            let same = api(L::factory_ctor, || crate::surface::rebuild_and_read(b))?;
+            if !same {
+                self.p.factory_rebuild_mismatch += 1;
+            }
+        }
+
         // ---- C13.T5: the same feed on copies at jumped clocks
         let mut t5: [Option<[Option<ParameterNumberMessage>; 2]>; 3] = [None, None, None];
         if contrib_pn {
